@@ -15,6 +15,20 @@ import (
 //   gen_gm_default_suites                : list N          the literal in getCipherSuites
 //   gen_top_suites                       : list N          topCipherSuites in initDefaultCipherSuites
 //   suite flag bits, version numbers, minVersion/maxVersion, maxHandshake, maxPlaintext, maxWarnAlertCount, TLS_FALLBACK_SCSV
+//
+// and, from conn.go, alert.go, handshake_client.go, handshake_server.go, gm_handshake_client_double.go,
+// gm_handshake_server_double.go, auto_handshake_server.go (the files of the default build):
+//   gen_type*, gen_recordType*, gen_alert*, the ClientAuthType constants
+//   gen_readHandshake_dispatch : list N            case constants of "switch data[0]" in Conn.readHandshake, in order
+//   gen_readHandshake_alerts   : list N            the alerts readHandshake sends: over-long message, unknown type, unmarshal failure
+//   gen_readRecord_alert_levels: list N            case constants of "switch data[0]" in readRecord's alert branch
+//   gen_reads_<endpoint>_<full|resume> : list (list N)
+//        the reads of a handshake in source order, one row [type; optional; alert] per "msg.(*xxxMsg)" type assertion
+//        (type = the handshake type readHandshake maps to that struct; 256 = c.readRecord(recordTypeChangeCipherSpec);
+//        optional = 1 when the read sits in a conditional, follows an early "return nil", or a mismatch is tolerated
+//        ("if ok {"); alert = the alert sent in the "if !ok {" branch, 0 when there is none)
+//   gen_auth_tests_<server>_<function> : list (list N)   every test of Config.ClientAuth in source order,
+//        rows [op; constant]: op 0 "==", 1 ">=", 2 a case of "switch c.config.ClientAuth"
 func init() {
 	register("hstables", func(c *Ctx) error {
 		p, err := LoadPkg(c, "gmtls", "cipher_suites.go", "gm_support.go", "common.go")
@@ -115,6 +129,482 @@ func init() {
 			}
 			v.N("gen_"+n, x)
 		}
+		if err := hsFlights(c, v); err != nil {
+			return err
+		}
 		return v.Write(c, "HSTables.v")
 	})
+}
+
+// ---------------------------------------------------------------------------------------------
+// message types, alerts, ClientAuth constants, the order of reads of every handshake flight
+
+const hsCCS = 256 // pseudo type of c.readRecord(recordTypeChangeCipherSpec)
+
+type hsRead struct {
+	typ      int64
+	optional bool
+	alert    int64
+}
+
+type hsWalker struct {
+	p        *Pkg
+	structTy map[string]int64 // message struct name -> handshake type (from readHandshake)
+	hsType   string           // receiver type behind the identifier "hs"
+	resume   bool
+	out      []hsRead
+	err      error
+	depth    int
+}
+
+func (w *hsWalker) fail(format string, a ...interface{}) {
+	if w.err == nil {
+		w.err = fmt.Errorf(format, a...)
+	}
+}
+
+func isIdent(e ast.Expr, name string) bool {
+	id, ok := e.(*ast.Ident)
+	return ok && id.Name == name
+}
+
+// msg.(*T) -> T
+func msgAssert(e ast.Expr) (string, bool) {
+	ta, ok := e.(*ast.TypeAssertExpr)
+	if !ok || !isIdent(ta.X, "msg") {
+		return "", false
+	}
+	st, ok := ta.Type.(*ast.StarExpr)
+	if !ok {
+		return "", false
+	}
+	id, ok := st.X.(*ast.Ident)
+	if !ok {
+		return "", false
+	}
+	return id.Name, true
+}
+
+// the alert constant of the first sendAlert(...) call in a block, 0 if none
+func (w *hsWalker) alertIn(b *ast.BlockStmt) int64 {
+	var res int64
+	ast.Inspect(b, func(n ast.Node) bool {
+		if res != 0 {
+			return false
+		}
+		if c, ok := n.(*ast.CallExpr); ok {
+			if s, ok := c.Fun.(*ast.SelectorExpr); ok && (s.Sel.Name == "sendAlert" || s.Sel.Name == "sendAlertLocked") && len(c.Args) == 1 {
+				if x, err := w.p.Eval(c.Args[0]); err == nil {
+					res = x.Int64()
+				}
+			}
+		}
+		return true
+	})
+	return res
+}
+
+// "!ok" or "!ok || <more reasons to refuse>"
+func isNotOk(e ast.Expr) bool {
+	if b, ok := e.(*ast.BinaryExpr); ok && b.Op.String() == "||" {
+		return isNotOk(b.X)
+	}
+	u, ok := e.(*ast.UnaryExpr)
+	return ok && u.Op.String() == "!" && isIdent(u.X, "ok")
+}
+
+func isReturnNilBlock(b *ast.BlockStmt) bool {
+	if len(b.List) != 1 {
+		return false
+	}
+	r, ok := b.List[0].(*ast.ReturnStmt)
+	return ok && len(r.Results) == 1 && isIdent(r.Results[0], "nil")
+}
+
+// record a read of struct T; next = the statement following the assertion (or the if statement carrying it)
+func (w *hsWalker) read(name string, cond ast.Expr, body *ast.BlockStmt, early bool) {
+	t, ok := w.structTy[name]
+	if !ok {
+		w.fail("type assertion to %s: not a struct of readHandshake's switch", name)
+		return
+	}
+	r := hsRead{typ: t}
+	switch {
+	case cond != nil && isNotOk(cond):
+		r.alert = w.alertIn(body)
+		if r.alert == 0 {
+			w.fail("mismatch branch of msg.(*%s) sends no alert", name)
+		}
+	case cond != nil && isIdent(cond, "ok"):
+		r.optional = true
+	default:
+		w.fail("msg.(*%s): not followed by a test of ok", name)
+	}
+	if w.depth > 0 || early {
+		r.optional = true
+	}
+	w.out = append(w.out, r)
+}
+
+func (w *hsWalker) block(stmts []ast.Stmt) {
+	early := false
+	for i := 0; i < len(stmts) && w.err == nil; i++ {
+		switch s := stmts[i].(type) {
+		case *ast.AssignStmt:
+			if len(s.Rhs) == 1 {
+				if name, ok := msgAssert(s.Rhs[0]); ok {
+					// x, ok := msg.(*T) followed by "if !ok {" or "if ok {"
+					var cond ast.Expr
+					var body *ast.BlockStmt
+					if i+1 < len(stmts) {
+						if nx, ok := stmts[i+1].(*ast.IfStmt); ok && nx.Init == nil {
+							cond, body = nx.Cond, nx.Body
+						}
+					}
+					w.read(name, cond, body, early)
+					continue
+				}
+			}
+			w.expr(s)
+		case *ast.IfStmt:
+			if s.Init != nil {
+				if as, ok := s.Init.(*ast.AssignStmt); ok && len(as.Rhs) == 1 {
+					if name, ok := msgAssert(as.Rhs[0]); ok {
+						w.read(name, s.Cond, s.Body, early)
+						continue
+					}
+				}
+				w.expr(s.Init)
+			}
+			if isIdent(s.Cond, "isResume") {
+				if w.resume {
+					w.block(s.Body.List)
+				} else if eb, ok := s.Else.(*ast.BlockStmt); ok {
+					w.block(eb.List)
+				}
+				continue
+			}
+			if isReturnNilBlock(s.Body) && s.Else == nil {
+				early = true
+				continue
+			}
+			w.depth++
+			w.block(s.Body.List)
+			switch e := s.Else.(type) {
+			case *ast.BlockStmt:
+				w.block(e.List)
+			case *ast.IfStmt:
+				w.block([]ast.Stmt{e})
+			}
+			w.depth--
+		case *ast.BlockStmt:
+			w.block(s.List)
+		case *ast.SwitchStmt, *ast.ForStmt, *ast.RangeStmt, *ast.TypeSwitchStmt:
+			w.depth++
+			w.expr(s)
+			w.depth--
+		default:
+			w.expr(s)
+		}
+	}
+}
+
+// calls inside a statement that is not itself structured: hs.method(...), run/process functions taking hs,
+// c.readRecord(recordTypeChangeCipherSpec)
+func (w *hsWalker) expr(n ast.Node) {
+	ast.Inspect(n, func(n ast.Node) bool {
+		if w.err != nil {
+			return false
+		}
+		if _, ok := n.(*ast.FuncLit); ok {
+			return false
+		}
+		if name, ok := n.(ast.Expr); ok {
+			if t, ok := msgAssert(name); ok {
+				w.fail("msg.(*%s) in an unrecognised position", t)
+				return false
+			}
+		}
+		c, ok := n.(*ast.CallExpr)
+		if !ok {
+			return true
+		}
+		if s, ok := c.Fun.(*ast.SelectorExpr); ok {
+			if s.Sel.Name == "readRecord" && len(c.Args) == 1 && isIdent(c.Args[0], "recordTypeChangeCipherSpec") {
+				w.out = append(w.out, hsRead{typ: hsCCS, optional: w.depth > 0})
+				return true
+			}
+			if isIdent(s.X, "hs") {
+				if f, ok := w.p.Funcs[w.hsType+"."+s.Sel.Name]; ok {
+					w.inline(f)
+				}
+			}
+		}
+		return true
+	})
+}
+
+func (w *hsWalker) inline(f *ast.FuncDecl) {
+	if f.Body == nil {
+		return
+	}
+	// the reads of the callee at the caller's nesting depth; "early return" is local to the callee
+	w.block(f.Body.List)
+}
+
+func hsRows(rs []hsRead) [][]*big.Int {
+	var rows [][]*big.Int
+	for _, r := range rs {
+		o := int64(0)
+		if r.optional {
+			o = 1
+		}
+		rows = append(rows, []*big.Int{big.NewInt(r.typ), big.NewInt(o), big.NewInt(r.alert)})
+	}
+	return rows
+}
+
+func hsFlights(c *Ctx, v *VFile) error {
+	p, err := LoadPkg(c, "gmtls", "common.go", "alert.go", "conn.go", "handshake_client.go", "handshake_server.go",
+		"gm_handshake_client_double.go", "gm_handshake_server_double.go", "auto_handshake_server.go")
+	if err != nil {
+		return err
+	}
+	fmt.Printf("gen: parsed gmtls handshake sources sha256 %s\n", p.Digest[:16])
+	konst := func(n string) (*big.Int, error) {
+		if x, ok := p.Consts[n]; ok {
+			return x, nil
+		}
+		e, err := p.Var(n)
+		if err != nil {
+			return nil, err
+		}
+		return p.Eval(e)
+	}
+	v.Raw("\n(* message types, record types, alerts, ClientAuthType (common.go, alert.go) *)\n")
+	for _, n := range []string{"typeHelloRequest", "typeClientHello", "typeServerHello", "typeNewSessionTicket", "typeCertificate",
+		"typeServerKeyExchange", "typeCertificateRequest", "typeServerHelloDone", "typeCertificateVerify", "typeClientKeyExchange",
+		"typeFinished", "typeCertificateStatus", "typeNextProtocol",
+		"recordTypeChangeCipherSpec", "recordTypeAlert", "recordTypeHandshake", "recordTypeApplicationData",
+		"alertLevelWarning", "alertLevelError", "alertCloseNotify", "alertUnexpectedMessage", "alertHandshakeFailure",
+		"alertBadCertificate", "alertIllegalParameter", "alertDecodeError", "alertDecryptError", "alertProtocolVersion",
+		"alertInternalError", "alertInappropriateFallback", "alertNoRenegotiation",
+		"NoClientCert", "RequestClientCert", "RequireAnyClientCert", "VerifyClientCertIfGiven", "RequireAndVerifyClientCert"} {
+		x, err := konst(n)
+		if err != nil {
+			return fmt.Errorf("constant %s: %v", n, err)
+		}
+		v.N("gen_"+n, x)
+	}
+
+	// ---- Conn.readHandshake: the dispatch switch ---------------------------------------------------
+	rh, ok := p.Funcs["Conn.readHandshake"]
+	if !ok {
+		return fmt.Errorf("Conn.readHandshake not found")
+	}
+	structTy := map[string]int64{}
+	var dispatch, rhAlerts []*big.Int
+	var sw *ast.SwitchStmt
+	ast.Inspect(rh, func(n ast.Node) bool {
+		if s, ok := n.(*ast.SwitchStmt); ok && sw == nil {
+			if ix, ok := s.Tag.(*ast.IndexExpr); ok && isIdent(ix.X, "data") {
+				sw = s
+			}
+		}
+		return true
+	})
+	if sw == nil {
+		return fmt.Errorf("readHandshake: switch data[0] not found")
+	}
+	sawDefault := false
+	for _, cc := range sw.Body.List {
+		cl := cc.(*ast.CaseClause)
+		if cl.List == nil {
+			sawDefault = true
+			continue
+		}
+		if len(cl.List) != 1 {
+			return fmt.Errorf("readHandshake: a case with %d constants", len(cl.List))
+		}
+		x, err := p.Eval(cl.List[0])
+		if err != nil {
+			return fmt.Errorf("readHandshake case: %v", err)
+		}
+		dispatch = append(dispatch, x)
+		// every struct the case can allocate: new(T), &T{...}
+		n := 0
+		ast.Inspect(cl, func(nd ast.Node) bool {
+			switch e := nd.(type) {
+			case *ast.CallExpr:
+				if isIdent(e.Fun, "new") && len(e.Args) == 1 {
+					if id, ok := e.Args[0].(*ast.Ident); ok {
+						structTy[id.Name] = x.Int64()
+						n++
+					}
+				}
+			case *ast.CompositeLit:
+				if id, ok := e.Type.(*ast.Ident); ok {
+					structTy[id.Name] = x.Int64()
+					n++
+				}
+			}
+			return true
+		})
+		if n == 0 {
+			return fmt.Errorf("readHandshake: case %v allocates no message struct", x)
+		}
+	}
+	if !sawDefault {
+		return fmt.Errorf("readHandshake: switch without default")
+	}
+	// the alerts of readHandshake in source order (over-long message, unknown type, unmarshal failure)
+	ast.Inspect(rh, func(n ast.Node) bool {
+		if c, ok := n.(*ast.CallExpr); ok {
+			if s, ok := c.Fun.(*ast.SelectorExpr); ok && (s.Sel.Name == "sendAlert" || s.Sel.Name == "sendAlertLocked") && len(c.Args) == 1 {
+				if x, err := p.Eval(c.Args[0]); err == nil {
+					rhAlerts = append(rhAlerts, x)
+				}
+			}
+		}
+		return true
+	})
+	v.Raw("\n(* Conn.readHandshake (conn.go): the types it dispatches on, the alerts it sends *)\n")
+	v.NList("gen_readHandshake_dispatch", dispatch)
+	v.NList("gen_readHandshake_alerts", rhAlerts)
+
+	// ---- readRecord: the levels of "switch data[0]" in the alert branch --------------------------------
+	rr, ok := p.Funcs["Conn.readRecord"]
+	if !ok {
+		return fmt.Errorf("Conn.readRecord not found")
+	}
+	var levels []*big.Int
+	found := false
+	ast.Inspect(rr, func(n ast.Node) bool {
+		cl, ok := n.(*ast.CaseClause)
+		if !ok || len(cl.List) != 1 || !isIdent(cl.List[0], "recordTypeAlert") {
+			return true
+		}
+		ast.Inspect(cl, func(m ast.Node) bool {
+			if s, ok := m.(*ast.SwitchStmt); ok && !found {
+				if ix, ok := s.Tag.(*ast.IndexExpr); ok && isIdent(ix.X, "data") {
+					found = true
+					for _, cc := range s.Body.List {
+						for _, e := range cc.(*ast.CaseClause).List {
+							if x, err := p.Eval(e); err == nil {
+								levels = append(levels, x)
+							}
+						}
+					}
+				}
+			}
+			return true
+		})
+		return false
+	})
+	if !found {
+		return fmt.Errorf("readRecord: the alert level switch was not found")
+	}
+	v.NList("gen_readRecord_alert_levels", levels)
+
+	// ---- the reads of every flight ----------------------------------------------------------------------
+	v.Raw("\n(* the reads of every handshake in source order: rows [type; optional; alert on mismatch]; 256 = ChangeCipherSpec *)\n")
+	type entry struct {
+		name, fn, hsType string
+		prefix           []hsRead
+	}
+	ch := []hsRead{}
+	entries := []entry{
+		{"tls_client", "clientHandshakeState.handshake", "clientHandshakeState", nil},
+		{"gm_client", "clientHandshakeStateGM.handshake", "clientHandshakeStateGM", nil},
+		{"tls_server", "Conn.serverHandshake", "serverHandshakeState", nil},
+		{"gm_server", "Conn.serverHandshakeGM", "serverHandshakeStateGM", nil},
+		{"auto_hello", "Conn.serverHandshakeAutoSwitch", "-", nil},
+		{"auto_tls_server", "runServerHandshake", "serverHandshakeState", ch},
+		{"auto_gm_server", "runServerHandshakeGM", "serverHandshakeStateGM", ch},
+	}
+	for _, e := range entries {
+		f, ok := p.Funcs[e.fn]
+		if !ok {
+			return fmt.Errorf("function %s not found", e.fn)
+		}
+		for _, resume := range []bool{false, true} {
+			w := &hsWalker{p: p, structTy: structTy, hsType: e.hsType, resume: resume}
+			w.block(f.Body.List)
+			if w.err != nil {
+				return fmt.Errorf("%s: %v", e.fn, w.err)
+			}
+			if len(w.out) == 0 {
+				return fmt.Errorf("%s: no reads found", e.fn)
+			}
+			suffix := "_full"
+			if resume {
+				suffix = "_resume"
+			}
+			if e.name == "auto_hello" {
+				if resume {
+					continue
+				}
+				suffix = ""
+			}
+			v.NListList("gen_reads_"+e.name+suffix, hsRows(w.out))
+		}
+	}
+
+	// ---- every test of Config.ClientAuth ---------------------------------------------------------------
+	v.Raw("\n(* every test of Config.ClientAuth in source order: rows [op; constant], op 0 ==, 1 >=, 2 switch case *)\n")
+	isClientAuth := func(e ast.Expr) bool {
+		s, ok := e.(*ast.SelectorExpr)
+		return ok && s.Sel.Name == "ClientAuth"
+	}
+	for _, srv := range []struct{ name, recv string }{{"tls", "serverHandshakeState"}, {"gm", "serverHandshakeStateGM"}} {
+		for _, fn := range []string{"checkForResumption", "doFullHandshake", "processCertsFromClient"} {
+			f, ok := p.Funcs[srv.recv+"."+fn]
+			if !ok {
+				return fmt.Errorf("function %s.%s not found", srv.recv, fn)
+			}
+			var rows [][]*big.Int
+			var ferr error
+			ast.Inspect(f, func(n ast.Node) bool {
+				switch e := n.(type) {
+				case *ast.BinaryExpr:
+					if isClientAuth(e.X) {
+						op := int64(-1)
+						switch e.Op.String() {
+						case "==":
+							op = 0
+						case ">=":
+							op = 1
+						}
+						x, err := p.Eval(e.Y)
+						if op < 0 || err != nil {
+							ferr = fmt.Errorf("%s.%s: unrecognised ClientAuth test (%s)", srv.recv, fn, e.Op)
+							return false
+						}
+						rows = append(rows, []*big.Int{big.NewInt(op), x})
+					} else if isClientAuth(e.Y) {
+						ferr = fmt.Errorf("%s.%s: ClientAuth on the right of %s", srv.recv, fn, e.Op)
+					}
+				case *ast.SwitchStmt:
+					if e.Tag != nil && isClientAuth(e.Tag) {
+						for _, cc := range e.Body.List {
+							for _, ce := range cc.(*ast.CaseClause).List {
+								x, err := p.Eval(ce)
+								if err != nil {
+									ferr = err
+									return false
+								}
+								rows = append(rows, []*big.Int{big.NewInt(2), x})
+							}
+						}
+					}
+				}
+				return true
+			})
+			if ferr != nil {
+				return ferr
+			}
+			v.NListList("gen_auth_tests_"+srv.name+"_"+fn, rows)
+		}
+	}
+	return nil
 }
